@@ -29,7 +29,7 @@ TNext ==
   \/ IsEv("exec") /\ DExec(Ev.t, Ev.main)
   \/ IsEv("cancel") /\ DCancel(Ev.t, Ev.res)
   \/ IsEv("after_closed") /\ DAfterClosed(Ev.req, TRUE)
-  \/ IsEv("destroyed") /\ qIn = <<>> /\ qNext = <<>> /\ batch = <<>> /\ drainN = <<>> /\ drainI = <<>> /\ DDestroyed
+  \/ IsEv("destroyed") /\ OnlyInt(qIn) /\ OnlyInt(qNext) /\ OnlyInt(batch) /\ OnlyInt(drainN) /\ OnlyInt(drainI) /\ DDestroyed
   \/ Skip("end")
 TSpec == TInit /\ [][TNext]_tvars
 Progress == TLCSet(42, IF l > TLCGet(42) THEN l ELSE TLCGet(42))
